@@ -17,7 +17,7 @@ SCHEMA = f'''<xs:schema {XS} targetNamespace="urn:t" xmlns:t="urn:t" elementForm
        <xs:element name="v" type="xs:int" maxOccurs="unbounded"/>
        <xs:element name="w" type="xs:QName" minOccurs="0"/>
        <xs:element name="b" minOccurs="0"><xs:complexType><xs:sequence><xs:element name="v" type="xs:date"/></xs:sequence></xs:complexType></xs:element>
-     </xs:sequence></xs:complexType><xs:unique name="UV"><xs:selector xpath="t:v"/><xs:field xpath="."/></xs:unique></xs:element>
+     </xs:sequence><xs:attribute name="lang" type="xs:language"/></xs:complexType><xs:unique name="UV"><xs:selector xpath="t:v"/><xs:field xpath="."/></xs:unique></xs:element>
    <xs:element ref="t:g" minOccurs="0" maxOccurs="unbounded"/>
    <xs:sequence minOccurs="0" maxOccurs="unbounded"><xs:element name="d" type="xs:date"/><xs:element name="n" type="xs:int"/></xs:sequence>
   </xs:sequence></xs:complexType></xs:element>
@@ -33,7 +33,8 @@ def gen(rng):
         vs = ''.join(f'<t:v>{rng.choice(["1", "22", "x", "1"])}</t:v>' for _ in range(rng.randrange(1, 4)))
         b = f'<t:b><t:v>{rng.choice(["2020-01-01", "nope"])}</t:v></t:b>' if rng.random() < .6 else ''
         w = f'<t:w>{rng.choice(["p:x", "t:y", "z"])}</t:w>' if rng.random() < .5 else ''
-        parts.append(f'<t:a{rng.choice(["", "", " xmlns:p=" + chr(34) + "urn:p" + chr(34)])}>{vs}{w}{b}</t:a>')
+        lang = ' lang="en"' if (i + len(vs)) % 3 == 0 else ''          # under XSD 1.1 the attribute is inheritable: the validator goes on with a copy of its context below such an element
+        parts.append(f'<t:a{lang}{rng.choice(["", "", " xmlns:p=" + chr(34) + "urn:p" + chr(34)])}>{vs}{w}{b}</t:a>')
     for i in range(rng.randrange(0, 3)): parts.append(rng.choice(['<t:g>tok</t:g>', '<t:g2>nc</t:g2>', '<t:g2>1bad</t:g2>']))
     # declarations with maxOccurs = 1 that repeat through their enclosing group: d[2], n[3] name real nodes
     for i in range(rng.randrange(0, 4)): parts.append(f'<t:d>{rng.choice(["2024-01-01", "2024-13-01"])}</t:d><t:n>{rng.choice(["1", "x"])}</t:n>')
@@ -54,7 +55,7 @@ def eval_doc(args):
     ver, doc = args
     import xmlschema
     from xml.etree import ElementTree as ET
-    s = _S.get(ver) or _S.setdefault(ver, _cls(ver)(SCHEMA))
+    s = _S.get(ver) or _S.setdefault(ver, _cls(ver)(SCHEMA.replace('name="lang" type="xs:language"', 'name="lang" type="xs:language" inheritable="true"') if ver == '1.1' else SCHEMA))
     res = xmlschema.XMLResource(doc); root = res.root; parent = {c: p for p in root.iter() for c in p}       # from text: prefixes declared in the document stay known
     governing = {}
 
@@ -97,7 +98,7 @@ def eval_doc(args):
             if sorted(perrs) != sorted(want):
                 if p.endswith('/t:w') and 'xmlns:p' in doc and [x for x in perrs if 'unmapped prefix' not in x] == [x for x in want if 'unmapped prefix' not in x]: known.append(p)
                 else: bad.append(('partial errors (non-positional path)', p, perrs[:3], want[:3]))
-        for md in (1, 2):
+        for md in (1, 2, 3):
             derrs = [(x.reason, x.path) for x in s.iter_errors(res, max_depth=md, namespaces=NS)]
 
             def depth(el):
